@@ -242,7 +242,7 @@ def V2.run (bc : Bool) (s : V2) : List Ev2 → V2
 /-- The notification scheme of the `MemDBV2` that is in /repo now: `false` = one-slot channel
 (defect D-6). Flip to `true` once `fixes/C17-v2-broadcast.diff` is applied; the driver and the
 "current implementation" corollaries in `Props/C17.lean` follow this constant. -/
-def implBroadcast : Bool := false
+def implBroadcast : Bool := true
 
 /-- Run the readers of a V2 state until none can move (what the lock-step driver observes after
 each operation). Among several waiting readers the one-slot token goes to the first in the list
